@@ -42,4 +42,29 @@ def handleLockWait (l : Line) : List Verdict :=
     pure (verdictsOf diffs viol)
   r.getD [Verdict.bad "lockwait"]
 
+/-- replicas that disagree on session.inactivity: the STORED timeout decides (`Ww.Model.Sys`: validity is a function of the stored metadata and the clock only) -/
+def handleMixedCfg (l : Line) : List Verdict :=
+  let r : Option (List Verdict) := do
+    let handler ← l.get? "handler"
+    let idle ← l.nat? "idlemin"
+    let timeout ← l.nat? "timeoutmin"
+    let status ← l.nat? "status"
+    let contacted ← l.nat? "contacted"
+    let upauth ← l.bool? "upauth"
+    let inactive := idle ≥ timeout
+    -- model: inside the timeout the (expired) token is refreshed on proxy / forward-auth / manual refresh and the session endpoint answers 200; past it nothing is
+    let (mStatus, mContacted, mAuth) : Nat × Bool × Bool :=
+      if inactive then (match handler with | "proxy" | "session" => (200, false, false) | _ => (401, false, false))   -- an inactive session stays READABLE (as inactive) on /oauth2/session
+      else (match handler with | "proxy" => (200, true, true) | "fwdauth" => (204, true, false) | "refresh" => (200, true, false) | _ => (200, false, false))
+    let diffs := cmp s!"{handler} idle {idle} min: status" status mStatus ++ cmp s!"{handler} idle {idle} min: provider contacted" (decide (contacted > 0)) mContacted ++
+      cmp s!"{handler} idle {idle} min: token forwarded" upauth mAuth
+    let viol : List (String × String) :=
+      (if inactive && contacted > 0 then
+        [("C06.refreshed_when_idle", s!"{handler}: the stored inactivity timeout ({timeout} min) passed {idle - timeout} min ago, yet a replica with session.inactivity off refreshed the session"),
+         ("C08.never_refreshed_violated", s!"{handler}: refresh grant for a session whose stored inactivity timeout has passed")] else []) ++
+      (if inactive && upauth then [("C06.accepted_after_idle", s!"{handler}: token forwarded {idle} min after the last refresh, stored timeout {timeout} min")] else []) ++
+      (if inactive && handler != "proxy" && handler != "session" && status != 401 then [("C06.status.timeout", s!"{handler} answered {status} for a session past its stored inactivity timeout")] else [])
+    pure (verdictsOf diffs viol)
+  r.getD [Verdict.bad "mixedcfg"]
+
 end Ww.Driver
